@@ -12,7 +12,8 @@ type slot struct {
 	commit, receipt, ack bool
 }
 
-const window = 3 // sequences cp .. cp+window are populated arbitrarily; N <= cp+window (stated bound)
+// sequences cp .. cp+window are populated arbitrarily; N <= cp+window (stated bound: 3 quick, 4 thorough)
+var window = uint64(vp.Bound(3, 4))
 
 // cleanState builds an arbitrary channel state around a clean request: clean point cp, ack
 // high-water mark, and for each sequence in the window an arbitrary combination of
